@@ -12,6 +12,7 @@ import (
 	"fmt"
 	"io"
 	"math"
+	"os"
 	"strconv"
 	"strings"
 	"sync"
@@ -97,7 +98,14 @@ func b2i(b bool) int {
 	return 0
 }
 
-const hangTimeout = 60 * time.Second
+// hangTimeout bounds every wait of the harness on the library; MPBH_HANG_MS shortens it
+// for directed witnesses that are expected to hang.
+var hangTimeout = func() time.Duration {
+	if v, err := strconv.Atoi(os.Getenv("MPBH_HANG_MS")); err == nil && v > 0 {
+		return time.Duration(v) * time.Millisecond
+	}
+	return 60 * time.Second
+}()
 
 // barCase is a script for one bar.
 type barCase struct {
